@@ -123,13 +123,30 @@ func (e *Engine) signOf(t *Term) sign {
 	case "var":
 		return e.varSign[t.Name]
 	case "*":
-		return mulSign(e.signOf(t.Args[0]), e.signOf(t.Args[1]))
-	case "+":
-		return addSign(e.signOf(t.Args[0]), e.signOf(t.Args[1]))
-	case "-":
-		return addSign(e.signOf(t.Args[0]), flip(e.signOf(t.Args[1])))
-	case "neg":
-		return flip(e.signOf(t.Args[0]))
+		s := sPos
+		for _, a := range t.Args {
+			s = mulSign(s, e.signOf(a))
+		}
+		return s
+	case "lin":
+		var acc sign = sZero
+		switch t.lf.c.Sign() {
+		case 1:
+			acc = sPos
+		case -1:
+			acc = sNeg
+		}
+		for i, a := range t.lf.atoms {
+			sa := e.signOf(a)
+			if t.lf.coefs[i].Sign() < 0 {
+				sa = flip(sa)
+			}
+			acc = addSign(acc, sa)
+			if acc == sUnknown {
+				return sUnknown
+			}
+		}
+		return acc
 	case "abs":
 		return sNonNeg
 	case "ite":
